@@ -304,20 +304,20 @@ theorem prev_sound {scripts : List (SKey × Nat)} {pre : List Block} {b : Block}
     p.tx.hash = h ∧
       (TxAt pre p.bn p.txi p.tx ∨ (p.bn = b.number ∧ tpre[p.txi]? = some p.tx)) := by
   unfold prevOf at hp
-  cases hl : lookup s.txs h with
+  cases hl : lookup (accB b.number 0 [] tpre) h with
   | some r =>
     rw [hl] at hp
     cases hp
-    obtain ⟨h1, h2⟩ := inv.sound h _ hl
-    exact ⟨h1, Or.inl h2⟩
-  | none =>
-    rw [hl] at hp
-    simp only at hp
-    rcases lookup_accB_sound _ _ _ _ _ _ hp with ⟨a, t, c, e, hh, rfl⟩ | h'
+    rcases lookup_accB_sound _ _ _ _ _ _ hl with ⟨a, t, c, e, hh, rfl⟩ | h'
     · refine ⟨hh, Or.inr ⟨rfl, ?_⟩⟩
       rw [e]
       simp
     · simp [lookup] at h'
+  | none =>
+    rw [hl] at hp
+    simp only at hp
+    obtain ⟨h1, h2⟩ := inv.sound h _ hp
+    exact ⟨h1, Or.inl h2⟩
 
 /-- …and every chain transaction that matters is found, with its true position -/
 theorem prev_complete {scripts : List (SKey × Nat)} {pre : List Block} {b : Block} {s : St}
@@ -329,26 +329,25 @@ theorem prev_complete {scripts : List (SKey × Nat)} {pre : List Block} {b : Blo
     prevOf s (accB b.number 0 [] tpre) t'.hash = some ⟨bn', txi', t'⟩ := by
   unfold prevOf
   rcases h with ⟨hat, oi, o, k, ho, ht, hr⟩ | ⟨rfl, hi⟩
-  · rw [inv.complete bn' txi' t' oi o k hat ho ht hr]
-  · have hnone : lookup s.txs t'.hash = none := by
-      cases hl : lookup s.txs t'.hash with
-      | none => rfl
-      | some r =>
-        exfalso
-        obtain ⟨h1, h2⟩ := inv.sound _ r hl
-        have hat' : TxAt (pre ++ [b]) b.number txi' t' := by
+  · have hnone : lookup (accB b.number 0 [] tpre) t'.hash = none := by
+      rw [lookup_accB_notin]
+      · rfl
+      · intro hm
+        obtain ⟨t'', ht'', hh''⟩ := List.mem_map.mp hm
+        obtain ⟨j, hj⟩ := List.mem_iff_getElem?.mp ht''
+        have hat'' : TxAt (pre ++ [b]) b.number j t'' := by
           rw [txAt_append, txAt_singleton]
           right
           refine ⟨rfl, ?_⟩
-          rw [hb, List.getElem?_append_left (List.getElem?_eq_some_iff.mp hi).1]
-          exact hi
+          rw [hb, List.getElem?_append_left (List.getElem?_eq_some_iff.mp hj).1]
+          exact hj
         obtain ⟨e1, _, _⟩ :=
-          txAt_hash_inj hw ((txAt_append _ _ _ _ _).mpr (Or.inl h2)) hat' h1
-        have := txAt_lt hw h2
+          txAt_hash_inj hw ((txAt_append _ _ _ _ _).mpr (Or.inl hat)) hat'' hh''.symm
+        have := txAt_lt hw hat
         omega
     rw [hnone]
-    simp only
-    obtain ⟨a, c, e, rfl⟩ := (getElem?_eq_some_iff_split _ _ _).mp hi
+    exact inv.complete bn' txi' t' oi o k hat ho ht hr
+  · obtain ⟨a, c, e, rfl⟩ := (getElem?_eq_some_iff_split _ _ _).mp hi
     have hnd : ((a ++ t' :: c).map (·.hash)).Nodup := by
       have := block_hashes_nodup hw
       rw [hb, e, List.map_append, List.nodup_append] at this
